@@ -12,13 +12,13 @@
    tests are parameters (another property models those codecs). *)
 From Coq Require Import NArith Arith List.
 From BU Require Import Base.Exn Base.Bytes Gen.Bip39Consts Gen.WlBip39 Model.BinStr Model.Bip39 Model.Seeds.
-From BU Require Lemmas.Seeds Lemmas.SeedsBip39 Lemmas.Bip39Props.
+From BU Require Lemmas.Bip39Norm Lemmas.Seeds Lemmas.SeedsBip39 Lemmas.Bip39Props.
 Import ListNotations.
 Open Scope N_scope.
 
 Notation ascii := Lemmas.Seeds.ascii.
-Notation plain := Lemmas.Seeds.plain.
-Notation all_space := Lemmas.Seeds.all_space.
+Notation plain := Lemmas.Bip39Norm.plain.
+Notation all_space := Lemmas.Bip39Norm.all_space.
 Notation str_mnemonic := Lemmas.Seeds.str_mnemonic.   (* "mnemonic" *)
 Notation str_electrum := Lemmas.Seeds.str_electrum.   (* "electrum" *)
 
@@ -61,7 +61,7 @@ Print Assumptions seed_passphrase_nfkd.
 
 Theorem seed_whitespace_invariant : forall sha256 nfkd lower pbkdf2 langs lang ws seps lead trail p, nfkd_laws nfkd ->
   Forall plain ws -> Forall (fun sp => sp <> [] /\ all_space sp) seps -> all_space lead -> all_space trail ->
-  bip39_seed_str sha256 nfkd lower pbkdf2 langs lang (lead ++ Lemmas.Seeds.join_with seps ws ++ trail) p =
+  bip39_seed_str sha256 nfkd lower pbkdf2 langs lang (lead ++ Lemmas.Bip39Norm.join_with seps ws ++ trail) p =
   bip39_seed_str sha256 nfkd lower pbkdf2 langs lang (join_sp ws) p.
 Proof.
   intros sha256 nfkd lower pbkdf2 langs lang ws seps lead trail p [_ H].
@@ -71,8 +71,8 @@ Print Assumptions seed_whitespace_invariant.
 
 Theorem split_join_with : forall ws seps lead trail,
   Forall plain ws -> Forall (fun sp => sp <> [] /\ all_space sp) seps -> all_space lead -> all_space trail ->
-  split_ws (lead ++ Lemmas.Seeds.join_with seps ws ++ trail) = ws.
-Proof. intros ws seps lead trail H. exact (Lemmas.Seeds.split_join_with ws H seps lead trail). Qed.
+  split_ws (lead ++ Lemmas.Bip39Norm.join_with seps ws ++ trail) = ws.
+Proof. intros ws seps lead trail H. exact (Lemmas.Bip39Norm.split_join_with ws H seps lead trail). Qed.
 Print Assumptions split_join_with.
 
 Theorem seed_spelling_invariant : forall sha256 nfkd lower pbkdf2 langs lang s1 s2 p, nfkd_laws nfkd ->
